@@ -50,9 +50,12 @@ class NestedProcessingTransformation(PreprocessingTransformation):
 
     def apply(self, rule: SigmaRule | SigmaCorrelationRule) -> None:
         super().apply(rule)
-        self._nested_pipeline.apply(rule)
         if self._pipeline is None:
             raise SigmaConfigurationError("Nested pipeline has not enclosing pipeline.")
+        # The nested items work like items of the enclosing pipeline: they see its variables and
+        # the state set by the items before.
+        self._nested_pipeline.vars = self._pipeline.vars
+        self._nested_pipeline.apply(rule, self._pipeline.state)
         self._pipeline.applied.extend(self._nested_pipeline.applied)
         self._pipeline.applied_ids.update(self._nested_pipeline.applied_ids)
         self._pipeline.field_name_applied_ids.update(self._nested_pipeline.field_name_applied_ids)
